@@ -52,8 +52,26 @@ def run_unit(unit, tier="quick", prefix=(), split=0):
                 out["canary"] = {"sat": "ok", "unknown": "unknown", "unsat": "VACUOUS"}[v]
                 first = False
             SYMCACHE.clear()
+            # grouped obligations (same path condition): one query for the conjunction first
+            groups = {}
             for ob in res.obligations:
-                if ob.name in refuted and not z3.is_true(ob.goal):
+                if ob.group is not None:
+                    groups.setdefault(ob.group, []).append(ob)
+            for gid, obs in groups.items():
+                if len(obs) < 2 or any(o.name in refuted for o in obs):
+                    continue
+                goals = [o.goal for o in obs if not z3.is_true(o.goal)]
+                if not goals:
+                    continue
+                v, _, be, secs = check_sat(list(obs[0].pc) + [z3.Not(z3.And(*goals))], timeout, use_cvc5=False)
+                out["solver_s"] += secs
+                if v == "unsat":
+                    for o in obs:
+                        o.verdict, o.backend, o.secs = "unsat", be + "(group)", secs / len(obs)
+            for ob in res.obligations:
+                if ob.verdict == "unsat":
+                    pass
+                elif ob.name in refuted and not z3.is_true(ob.goal):
                     # already refuted (with a counter-model) on another path: do not spend solver time on more models
                     ob.verdict, ob.backend, ob.secs, ob.model = "also-failing", "skipped", 0.0, None
                 else:
